@@ -121,6 +121,7 @@ type input struct {
 	Arg    string `json:"arg"`    // what Resolve receives
 	Svcb   string `json:"svcb"`   // RFC 9460 2.3 query name expected by the oracle
 	Class  string `json:"class"`  // normal | host-illegal | svcb-illegal
+	Dotted bool   `json:"dotted,omitempty"` // the host is written with a trailing dot
 }
 
 func legalName(n string) bool {
@@ -189,6 +190,11 @@ func genInput(rng *mrand.Rand, i int) input {
 		}
 	}
 	in.Arg = in.Host
+	// the FQDN spelling of the same host: the same queries, the same answers
+	if !isSp && rng.IntN(7) == 0 && !strings.HasSuffix(in.Host, ".") {
+		in.Arg += "."
+		in.Dotted = true
+	}
 	if in.Port >= 0 {
 		in.Arg += fmt.Sprintf(":%d", in.Port)
 	}
@@ -395,7 +401,7 @@ func genZone(rng *mrand.Rand, in input) *dohfake.Zone {
 		}
 		z.Rcode[k] = 1 + rng.IntN(5)
 		if rng.IntN(4) == 0 {
-			z.Rcode[k] = []int{16, 19, 22, 23}[rng.IntN(4)] // extended RCODEs: upper bits in the OPT record, header nibble 0, 3, 6, 7
+			z.Rcode[k] = []int{16, 19, 22, 23, 256, 272, 3841, 4095}[rng.IntN(8)] // extended RCODEs: upper bits in the OPT record, header nibble 0, 3, 6, 7
 		}
 	}
 	if rng.IntN(2) == 0 {
